@@ -173,7 +173,7 @@ func c03NameBuffers(c *Ctx, r *Report, rule string) {
 // c06SlurpEOF: the end of the input ends a record as a newline does: slurpRemainder reports "garbage" only for a
 // token that is neither.
 func c06SlurpEOF(c *Ctx, r *Report, rule string) {
-	r.rule(rule, 2, "slurpRemainder refuses a trailing token only when it is neither a newline nor the end of input")
+	r.rule(rule, 1, "slurpRemainder refuses a trailing token only when it is neither a newline nor the end of input")
 	fn := c.ssaFunc("slurpRemainder")
 	nl, ok1 := c.constInt("zNewline")
 	eof, ok2 := c.constInt("zEOF")
